@@ -167,6 +167,10 @@ def run(F, res, tier):
     nn = sum(1 for v in R["finish_sites"].values() if v["kind"] in ("NAME", "NAME_REF", "TYPE_NAME", "LABEL"))
     res.ob("A4", "name-nodes-one-token", "name-like nodes wrap at most one token and no child node, so a name-like result covers a whole token (decided by engine P, see C07/N1)",
            not bad and nn >= 18, where="crates/syntax/src/parser.rs", how="%d finish_node sites of name-like kinds, offending: %s" % (nn, bad))
+    # A5: syntax ranges are offsets into the text that was lexed; they are reported against the file's content. Both are
+    # the same string only if parse_module lexes its `src` argument as it is (no stripped prefix, no normalisation)
+    from rules import c01 as _c01
+    _c01.parse_module_rules(F, res, rule="A5")
 
 
 def thorough(F, res):
